@@ -208,6 +208,67 @@ class CacheMonitor:
             self._orig = None
 
 
+class FsSeam:
+    """N8: the dump directory.  plan(path, kind) -> None | 'enospc' | 'eio' | ('short', n) decides what happens to a write of
+    halmos.solve: dump_file.write_text(query) (kind 'query') and open(<query>.out / .err, 'w') (kind 'out')"""
+
+    def __init__(self, sim, plan=None):
+        self.sim = sim
+        self.plan = plan
+        self._undo = []
+
+    def install(self):
+        if self.plan is None:
+            return self
+        import builtins
+        import errno
+        import pathlib
+
+        import halmos.solve as hs
+
+        seam = self
+        orig_write_text = pathlib.Path.write_text
+
+        def write_text(path_self, data, *a, **kw):
+            act = seam.plan(str(path_self), "query") if str(path_self).endswith(".smt2") else None
+            if act == "enospc":
+                seam.sim.fault("fs_enospc")
+                raise OSError(errno.ENOSPC, "No space left on device", str(path_self))
+            if act == "eio":
+                seam.sim.fault("fs_eio")
+                raise OSError(errno.EIO, "Input/output error", str(path_self))
+            if isinstance(act, tuple) and act[0] == "short":
+                seam.sim.fault("fs_short_write")
+                data = data[: act[1] % max(len(data), 1)]  # a torn write nobody reported
+            return orig_write_text(path_self, data, *a, **kw)
+
+        pathlib.Path.write_text = write_text
+        self._undo.append((pathlib.Path, "write_text", orig_write_text))
+
+        def open_(file, mode="r", *a, **kw):
+            if "w" in mode and str(file).endswith((".out", ".err")):
+                act = seam.plan(str(file), "out")
+                if act in ("eio", "enospc"):
+                    seam.sim.fault("fs_out_" + act)
+                    raise OSError(errno.EIO if act == "eio" else errno.ENOSPC, "write failed", str(file))
+            return builtins.open(file, mode, *a, **kw)
+
+        hs.open = open_  # a module global shadows the builtin inside halmos.solve only
+        self._undo.append((hs, "open", None))
+        return self
+
+    def remove(self):
+        for obj, name, val in reversed(self._undo):
+            if val is None:
+                try:
+                    delattr(obj, name)
+                except AttributeError:
+                    pass
+            else:
+                setattr(obj, name, val)
+        self._undo.clear()
+
+
 class UidSeam:
     def __init__(self, ch, mode="random"):
         self.ch = ch
@@ -287,7 +348,7 @@ def reset_halmos_globals():
 
 def run_under_sim(ch, main_fn, *, solver="yices", plan=None, fault_rate=0.0, kinds=None, preempt_k=0,
                   uid_mode="random", max_steps=60000, keep_log=False, latency=True, stub_cls=SolverStub,
-                  fresh=True, tmp_prefix="runsim-", unknown_rate=0.0, gc_rate=0.0) -> RunSimResult:
+                  fresh=True, tmp_prefix="runsim-", unknown_rate=0.0, gc_rate=0.0, fs_plan=None) -> RunSimResult:
     """run main_fn() (which calls into halmos) as the main task of a simulation"""
     from .engine import LogCapture
 
@@ -304,6 +365,7 @@ def run_under_sim(ch, main_fn, *, solver="yices", plan=None, fault_rate=0.0, kin
     eseam = EngineSeams(ch, unknown_rate=unknown_rate, gc_rate=gc_rate, record_pruned=False, patch_uid=False)
     cmon = CacheMonitor(solver)
     out.cache = cmon
+    fs = FsSeam(sim, fs_plan)
     tmpdir = tempfile.mkdtemp(prefix=tmp_prefix, dir="/dev/shm" if os.path.isdir("/dev/shm") else None)
     old_tmp = tempfile.tempdir
     buf = io.StringIO()
@@ -317,6 +379,7 @@ def run_under_sim(ch, main_fn, *, solver="yices", plan=None, fault_rate=0.0, kin
         eseam.install()
         out.eseam = eseam
         cmon.install()
+        fs.install()
         with LogCapture(fresh=fresh) as lc, contextlib.redirect_stdout(buf):
             def main():
                 try:
@@ -328,6 +391,7 @@ def run_under_sim(ch, main_fn, *, solver="yices", plan=None, fault_rate=0.0, kin
             sim.run(main)
         out.warnings = lc.records
     finally:
+        fs.remove()
         cmon.remove()
         eseam.remove()
         uid.remove()
